@@ -1329,10 +1329,15 @@ class Scene(Geometry3D):
         copied = Scene(
             geometry=geometry,
             graph=self.graph.copy(),
-            metadata=self.metadata.copy(),
+            metadata=deepcopy(self.metadata),
             camera=camera,
         )
         return copied
+
+    def __deepcopy__(self, *args) -> "Scene":
+        # the default protocol walks the cache, which can hold
+        # objects that can not be deep-copied (i.e. `dict_keys`)
+        return self.copy()
 
     def show(self, viewer=None, **kwargs):
         """
